@@ -7,6 +7,8 @@
 set -u
 TARGET=$1; TIER=$2; shift 2
 cd /verif
+export VERIF_OUT=${VERIF_OUT:-/var/tmp/verif-mutant-out/$(basename "$TARGET")}
+mkdir -p "$VERIF_OUT"
 if [ -d "$TARGET" ]; then
   export VERIF_REPO=$TARGET
 else
